@@ -229,5 +229,8 @@ class TriggerHandler:
         if not self.__installed:
             return
         self.__installed = False
+        # threads that are already running keep calling us (settrace only affects the calling thread, and new threads)
+        # so drop the tracepoints; we do not act once we are shutdown
+        self._tp_config = []
         sys.settrace(self.__old_sys_trace)
         threading.settrace(self.__old_thread_trace)
